@@ -43,13 +43,15 @@ def model(W: int, mf: int, history: List[Dict[str, Any]], startup_deaths: Iterab
                 saw_ra = True
                 q.extend(("R", i, True) for i in range(W))
             elif a == "SD":
-                return {"status": "returned", "ret": None, "tick": t + 1, "alive": list(alive), "reload_ticks": reload_ticks}
+                return {"status": "returned", "ret": None, "tick": t + 1, "alive": list(alive), "reload_ticks": reload_ticks,
+                        "final_starts": sorted(restarted)}
             else:
                 _, i, free = a
                 if not free and mf >= 1:
                     fails += 1
                     if fails >= mf:
-                        return {"status": "returned", "ret": -1, "tick": t + 1, "alive": list(alive), "reload_ticks": reload_ticks}
+                        return {"status": "returned", "ret": -1, "tick": t + 1, "alive": list(alive), "reload_ticks": reload_ticks,
+                                "final_starts": sorted(restarted)}
                 if i in restarted:
                     continue
                 alive[i] = nstart not in sd
